@@ -71,12 +71,22 @@ var c15Neighbors = []struct{ name, before, after, outBefore, outAfter string }{
 	{"call-with-param", "{call .f}{param x: 2 /}{/call}", "{call .f}{param x}3{/param}{/call}", "F2", "F3"},
 }
 
+// gaps: places between two tags of one command, where no text can be rendered
+var c15Gaps = []struct{ name, before, after, out string }{
+	{"between {switch} and its first {case}", "[{switch 1}", "{case 1}A{/switch}]", "[A]"},
+	{"between {plural} and its first {case}", "[{msg desc=\"d\"}{plural 1}", "{case 1}A{default}B{/plural}{/msg}]", "[A]"},
+	{"between {call} and its first {param}", "[{call .f}", "{param x: 2 /}{/call}]", "[F2]"},
+	{"between the last {param} and {/call}", "[{call .f}{param x: 2 /}", "{/call}]", "[F2]"},
+	{"between a content {param} and {/call}", "[{call .f}{param x}2{/param}", "{/call}]", "[F2]"},
+	{"between two {param}s", "[{call .g}{param x: 2 /}", "{param y: 3 /}{/call}]", "[G23]"},
+}
+
 // c15Header: the templates of the bundle being built declare their param in the header.
 var c15Header bool
 
 func c15Source(bodies []string) string {
 	var b strings.Builder
-	b.WriteString("{namespace n}\n/** */\n{template .e}E{/template}\n/** @param x */\n{template .f}F{$x}{/template}\n")
+	b.WriteString("{namespace n}\n/** */\n{template .e}E{/template}\n/** @param x */\n{template .f}F{$x}{/template}\n/**\n * @param x\n * @param y */\n{template .g}G{$x}{$y}{/template}\n")
 	for i, body := range bodies {
 		if c15Header {
 			fmt.Fprintf(&b, "{template .t%d}{@param x: ?}%s{if false}{$x}{/if}{/template}\n", i, body)
@@ -161,6 +171,35 @@ func checkC15(c C15Case) Verdict {
 	defer func() { c15Header = false }()
 	nb := c15Neighbors[c.Neighbor%len(c15Neighbors)]
 	switch c.Level {
+	case "L1g":
+		// a text run where only the separation of two tags may stand (between {switch} and its first
+		// {case}, between {plural} and {case}, around the {param}s of a {call}): white space is nothing
+		// there; anything else is text that cannot be rendered - it is refused, not dropped
+		gp := c15Gaps[c.Neighbor%len(c15Gaps)]
+		nt := false
+		for _, r := range c.Runs {
+			if hasCommentStart(r) || strings.Contains(r, "//") {
+				continue
+			}
+			outs, err := renderBodies([]string{gp.before + r + gp.after})
+			if err != nil && strings.HasPrefix(err.Error(), fileDiff) {
+				return bad(true, "%v", err)
+			}
+			if strings.Trim(r, " \t\r\n") == "" {
+				if err != nil {
+					return bad(true, "white space %q %s is rejected: %v", r, gp.name, err)
+				}
+				if outs[0] != gp.out {
+					return bad(true, "white space %q %s changes the output to %q (%q without it)", r, gp.name, outs[0], gp.out)
+				}
+				continue
+			}
+			nt = true
+			if err == nil {
+				return bad(true, "the text %q %s is accepted and the template renders %q: characters that are not white space were dropped", r, gp.name, outs[0])
+			}
+		}
+		return ok(nt, "L1g:"+gp.name)
 	case "L1":
 		bodies := make([]string, len(c.Runs))
 		for i, r := range c.Runs {
@@ -208,6 +247,9 @@ func checkC15(c C15Case) Verdict {
 				src.WriteString("/** CMT" + p + " */")
 			case "blockempty":
 				src.WriteString("/**/")
+			case "blockslash":
+				// a block comment whose text begins with a slash (the "/*/ ... /*/" idiom)
+				src.WriteString("/*/ CMT" + p + "*/")
 			case "blocktight":
 				// nothing between the comment's last character and its end: /* CMT**/, /*CMT x*/
 				src.WriteString("/* CMT" + p + "*/")
@@ -332,7 +374,19 @@ func checkC15(c C15Case) Verdict {
 
 func genC15(t *rapid.T) C15Case {
 	c := C15Case{Neighbor: rapid.IntRange(0, len(c15Neighbors)-1).Draw(t, "neighbor"), Header: rapid.IntRange(0, 2).Draw(t, "header") == 0}
-	switch rapid.IntRange(0, 9).Draw(t, "level") {
+	lv := rapid.IntRange(0, 10).Draw(t, "level")
+	if lv == 10 {
+		c.Level = "L1g"
+		for i, n := 0, rapid.IntRange(1, 4).Draw(t, "nruns"); i < n; i++ {
+			var b strings.Builder
+			for j, m := 0, rapid.IntRange(1, 4).Draw(t, "len"); j < m; j++ {
+				b.WriteString(rapid.SampledFrom(c15Wide).Draw(t, "ch"))
+			}
+			c.Runs = append(c.Runs, b.String())
+		}
+		return c
+	}
+	switch lv {
 	case 0, 1, 2, 3, 4:
 		c.Level = "L1"
 		for i, n := 0, rapid.IntRange(1, 4).Draw(t, "nruns"); i < n; i++ {
@@ -349,7 +403,7 @@ func genC15(t *rapid.T) C15Case {
 	case 5, 6, 7:
 		c.Level = "L2"
 		for i, n := 0, rapid.IntRange(1, 6).Draw(t, "npieces"); i < n; i++ {
-			k := rapid.SampledFrom([]string{"text", "text", "line", "block", "slashtext", "blocktight", "line-cr", "line-crlf", "blockdoc", "blockempty"}).Draw(t, "kind")
+			k := rapid.SampledFrom([]string{"text", "text", "line", "block", "slashtext", "blocktight", "line-cr", "line-crlf", "blockdoc", "blockempty", "blockslash"}).Draw(t, "kind")
 			switch k {
 			case "slashtext":
 				// text that begins with "//" directly after a tag, a block comment or a non-whitespace
@@ -367,6 +421,8 @@ func genC15(t *rapid.T) C15Case {
 				c.Runs = append(c.Runs, rapid.SampledFrom([]string{"a", "b c", " d ", "\n", "  \n  ", "<p>", "http://x.y/z", "a//b", "e\n", "\nf", "x:// y", "<br>\n", " ", "é", "1/2", "ftp://h/ /p", "上", "不\n三", "a†//b", "č//z", "\u2009", "x上//y", "三/ x", "\u3000", "\x00", "a\x00", "\x00 b"}).Draw(t, "text"))
 			case "blockempty":
 				c.Runs = append(c.Runs, "")
+			case "blockslash":
+				c.Runs = append(c.Runs, rapid.SampledFrom([]string{" hidden ", " x /", "/// x ///", "", " {$x} "}).Draw(t, "cmt"))
 			case "blockdoc":
 				c.Runs = append(c.Runs, rapid.SampledFrom([]string{"", " note", "\n * @param x the x\n", " {$x}", "*", "\n * multi\n * line\n"}).Draw(t, "cmt"))
 			case "blocktight":
@@ -383,7 +439,7 @@ func genC15(t *rapid.T) C15Case {
 		c.Kinds = []string{c15Forms[rapid.IntRange(0, len(c15Forms)-1).Draw(t, "form")].name}
 		c.Runs = []string{
 			rapid.SampledFrom([]string{"yes", "a ", "\n  b", "x\n", "", " q  ", "<b>"}).Draw(t, "inner"),
-			rapid.SampledFrom([]string{"/* CMT */", " // CMT\n", "/* CMT\n more */", "\n// CMT\n", " /* CMT */ ", "\n  // CMT\n  ", "/* CMT *//* CMT */", "", "/**/", "/** CMT */", " /** CMT\n * @param x\n */"}).Draw(t, "cmt"),
+			rapid.SampledFrom([]string{"/* CMT */", " // CMT\n", "/* CMT\n more */", "\n// CMT\n", " /* CMT */ ", "\n  // CMT\n  ", "/* CMT *//* CMT */", "", "/**/", "/** CMT */", "/*/ CMT /*/", "/*/ CMT */", " /** CMT\n * @param x\n */"}).Draw(t, "cmt"),
 			rapid.SampledFrom([]string{" done", "\t  end", "  b c ", "x", " \n y", "  ", " ", "\tz", " <i>", "\n", " a\n"}).Draw(t, "after"),
 		}
 	default:
